@@ -440,6 +440,7 @@ class List(list, base.Symbolic, pg_typing.CustomTyping):
         if isinstance(old_value, base.TopologyAware):
           old_value.sym_setparent(None)
         self._sync_children_paths()
+        self._invalidate_content_caches()
         return base.FieldUpdate(
             self.sym_path + index, self,
             self._value_spec.element if self._value_spec else None,
@@ -457,6 +458,7 @@ class List(list, base.Symbolic, pg_typing.CustomTyping):
           old_value.sym_setparent(None)
     else:
       super().append(new_value)
+    self._invalidate_content_caches()
     return base.FieldUpdate(
         self.sym_path + index, self,
         self._value_spec.element if self._value_spec else None,
@@ -651,6 +653,7 @@ class List(list, base.Symbolic, pg_typing.CustomTyping):
     if isinstance(old_value, base.TopologyAware):
       old_value.sym_setparent(None)
     self._sync_children_paths()
+    self._invalidate_content_caches()
 
     if flags.is_change_notification_enabled():
       self._notify_field_updates([
@@ -794,6 +797,7 @@ class List(list, base.Symbolic, pg_typing.CustomTyping):
           self._value_spec.element if self._value_spec else None,
           old_value, pg_typing.MISSING_VALUE))
     super().clear()
+    self._invalidate_content_caches()
     if flags.is_change_notification_enabled() and updates:
       self._notify_field_updates(updates)
 
@@ -803,6 +807,7 @@ class List(list, base.Symbolic, pg_typing.CustomTyping):
       raise base.WritePermissionError('Cannot sort a sealed List.')
     super().sort(key=key, reverse=reverse)
     self._sync_children_paths()
+    self._invalidate_content_caches()
 
   def reverse(self) -> None:
     """Reverse the elements of the list in place."""
@@ -810,6 +815,7 @@ class List(list, base.Symbolic, pg_typing.CustomTyping):
       raise base.WritePermissionError('Cannot reverse a sealed List.')
     super().reverse()
     self._sync_children_paths()
+    self._invalidate_content_caches()
 
   def custom_apply(
       self,
